@@ -1,4 +1,5 @@
 import Driver.OpsRead
+import TT.RunAnalysis
 import TT.Run
 namespace Driver
 open TT TT.Tree TT.Spec
@@ -38,22 +39,17 @@ def decodeFile (fmt : String) (v4 : Bool) (lines : List Str) : Option (List (Opt
 def runOpConvert (op : String) (args : List String) : String :=
   match op, args with
   | "analysis_cli", [task, src] =>
-    -- the whole `treetools treeanalysis SRC TASK` on an export source: read every sentence, run the task's accumulator
-    -- over the trees in file order, report (the numbers of the report, in the form the harness extracts from stdout)
-    match decS src with
-    | none => bad
-    | some text =>
-      match readExport {} text with
+    -- the whole `treetools treeanalysis SRC TASK` on an export source: TT.runAnalysis (reader, the task's accumulator
+    -- over the trees in file order, the numbers of the report; theorems in TT/Props/C16Run.lean), printed in the form the
+    -- harness extracts from stdout
+    match decS src, analysisTask? task with
+    | some text, some tk =>
+      match TT.runAnalysis tk text with
       | .error e => encErr e
-      | .ok r =>
-        let ts := r.map (·.2)
-        match task with
-        | "GapDegree" =>
-          let s := ts.foldl GapStats.run {}
-          s!"{GapStats.total s.perTree} {GapStats.total s.perNode} T {encAssoc s.perTree} N {encAssoc s.perNode}"
-        | "PosTags" => toString (distinctCount (ts.foldl posTagsRun []))
-        | "SentenceCount" => toString ts.length
-        | _ => bad
+      | .ok (.gap nt nn pt pn) => s!"{nt} {nn} T {encAssoc pt} N {encAssoc pn}"
+      | .ok (.tags n) => toString n
+      | .ok (.sentences n) => toString n
+    | _, _ => bad
   | "convert", [srcfmt, srcopts, destfmt, destopts, enc, src] =>
     let io := decInOpts srcopts
     let trees : Option (Except Err (List (Nat × Tree))) := match srcfmt with
